@@ -46,7 +46,7 @@ func (r *refParser) typAt(k int) models.TokenType {
 	}
 	return models.TokenTypeEOF
 }
-func (r *refParser) lit() string { return r.t[r.pos].Literal }
+func (r *refParser) lit() string                { return r.t[r.pos].Literal }
 func (r *refParser) is(t models.TokenType) bool { return r.typ() == t }
 
 func (r *refParser) binLevel(next func() *mnode, ops ...models.TokenType) *mnode {
